@@ -17,6 +17,12 @@ from vlib.refsem import known
 LEVEL = "exploration"
 
 
+def cppdrv_first_error(err):
+    import re as _re
+    m = _re.search(r"error: (.*)", err or "")
+    return _re.sub(r"'[^']*'", "'X'", m.group(1))[:100] if m else "unknown"
+
+
 def module_case(arg):
     common.repo_on_path()
     out = {"idx": arg["idx"], "viol": [], "cases": 0, "eq_true": 0, "eq_false": 0, "copies_ok": 0, "copies_refused": 0,
@@ -32,8 +38,8 @@ def module_case(arg):
         built = cppsuite.Built(d, gm)
         b = built.build("eqcopy", flavour)
         if b is None:
-            out["viol"].append({"mech": "driver-does-not-compile", "what": built.build_errors[("eqcopy", flavour)][-1800:],
-                                "coords": gm["coords"], "text": gm["text"]})
+            # a header + driver that does not compile is C07's observation; here the module is a counted skip
+            out["compile_failed"] = cppdrv_first_error(built.build_errors[("eqcopy", flavour)])
             return out
         out["built"] = True
         tops = [s for s in m.structs if s.kind == "struct"]
@@ -196,6 +202,10 @@ def run(ctx):
         v = val["val"]
         ctx.count("modules")
         ctx.count("modules_built", 1 if v["built"] else 0)
+        if v.get("compile_failed"):
+            ctx.count("modules_skipped_driver_does_not_compile")
+            ctx.extra.setdefault("compile_failures", {}).setdefault(v["compile_failed"], 0)
+            ctx.extra["compile_failures"][v["compile_failed"]] += 1
         ctx.evaluations += v["cases"]
         for k in ("eq_true", "eq_false", "copies_ok", "copies_refused", "overlap_copies", "abstained"):
             ctx.count(k, v[k])
